@@ -1227,4 +1227,91 @@ example : xSetter? ([0, 1/4, 1/2, 3/4] : List ℚ) = none ∧ xSetter? ([0, 1/4,
     dSetter? ([⟨0, 0, 0⟩, ⟨1, 1/1000000000, 0⟩, ⟨2, 0, 0⟩] : List (V3 ℚ)) = none ∧
     dSetter? ([⟨0, 0, 0⟩, ⟨1, 1/1000000, 0⟩, ⟨2, 0, 0⟩] : List (V3 ℚ)) = some .dAssert := by decide +kernel
 
+/-! ## statement audit: non-vacuity, the theorems instantiated with every hypothesis discharged at `K := ℚ` -/
+section audit
+
+/-- a non-constant energy functional for the descent example. -/
+private def exEtot (d : List (V3 ℚ)) : ℚ := (d.map (fun v => v.z * v.z)).sum
+
+private theorem half_ne_int (z : Int) : (1/2 : ℚ) ≠ z := by
+  intro h
+  have h2 : (2 : ℚ) * (1/2) = 2 * (z : ℚ) := by rw [h]
+  have h3 : ((1 : Int) : ℚ) = ((2 * z : Int) : ℚ) := by push_cast; linarith
+  have := Int.cast_injective (α := ℚ) h3
+  omega
+
+-- `wrap_loop_spec`: the loop result -1/4 for a = 7/4, cushion 1/4
+example : (-1/4 : ℚ) = wrap Int.floor (1/4) (7/4) :=
+  wrap_loop_spec (1/4) (7/4) (-1/4) 2 (by norm_num) (by norm_num) (by norm_num)
+-- `hgrid_of_uniform`: 0 < n, k < n
+example : (0 : Nat) < 4 ∧ (3 : Nat) < 4 := by decide
+-- `delta_periodic_offlattice`: off-lattice point (1/2, 1/2), non-constant f, periods (3, -2)
+example : deltaEval Int.floor Int.ceil (fun a b : ℚ => a + 10 * b) (1/2 + (3 : Int)) (1/2 + (-2 : Int))
+    = deltaEval Int.floor Int.ceil (fun a b : ℚ => a + 10 * b) (1/2) (1/2) :=
+  delta_periodic_offlattice _ (1/2) (1/2) 3 (-2) half_ne_int half_ne_int
+-- `delta_interpolates`: the sampled shift (1/2, 0) of `exD`
+example : deltaEval Int.floor Int.ceil exF (1/2) 0 = 3 := by
+  have h : (fitNodes? exD).isSome = true := by decide +kernel
+  obtain ⟨N, hN⟩ := Option.isSome_iff_exists.mp h
+  have hf : ∀ n ∈ N, exF n.a1 n.a2 = n.e := by
+    have : ((fitNodes? exD).map (fun N => N.all (fun n => decide (exF n.a1 n.a2 = n.e)))) = some true := by
+      decide +kernel
+    rw [hN] at this
+    simpa using this
+  exact delta_interpolates exD N exF hN hf ⟨1/2, 0, 3⟩
+    (List.mem_filter.mpr ⟨by simp [exD], by decide +kernel⟩) (by norm_num) (by norm_num)
+-- `pos_xy_inverse(_many)`: oblique plot axis X = (3, 4, 0) in the plane normal to (0, 0, 2), norms 5, 10/… given
+example : posToXY (xyTransform (⟨3, 4, 0⟩ : V3 ℚ) ⟨0, 0, 2⟩ 5 5 2) (xyToPos (xyTransform ⟨3, 4, 0⟩ ⟨0, 0, 2⟩ 5 5 2) (7, -3)) = (7, -3) :=
+  (pos_xy_inverse (⟨3, 4, 0⟩ : V3 ℚ) ⟨0, 0, 2⟩ 5 5 2 (by norm_num) (by norm_num) (by norm_num) (by decide +kernel)
+    (by decide +kernel) (by decide +kernel)).1 (7, -3)
+-- `planeNormal_perp`, `a12_pos_inverse`, `xy_default_inverse`, `E_interchangeable`, `E_other_basis`: the hexagonal pair
+example : V3.cross (⟨3, 0, 0⟩ : V3 ℚ) ⟨-3/2, 13/5, 0⟩ ≠ v3zero ∧ (39/5 : ℚ) ≠ 0 := by decide +kernel
+-- `frameK_symmetric`: symmetric non-diagonal K, rotation by the 3-4-5 angle about z
+example : kform (frameK (⟨⟨3/5, 4/5, 0⟩, ⟨-4/5, 3/5, 0⟩, ⟨0, 0, 1⟩⟩ : M3 ℚ) ⟨⟨2, 1, 1⟩, ⟨1, 3, 2⟩, ⟨1, 2, 4⟩⟩)
+      (frameB ⟨⟨3/5, 4/5, 0⟩, ⟨-4/5, 3/5, 0⟩, ⟨0, 0, 1⟩⟩ ⟨1, 2, 3⟩) (frameB ⟨⟨3/5, 4/5, 0⟩, ⟨-4/5, 3/5, 0⟩, ⟨0, 0, 1⟩⟩ ⟨1, 2, 3⟩)
+    = kform (⟨⟨2, 1, 1⟩, ⟨1, 3, 2⟩, ⟨1, 2, 4⟩⟩ : M3 ℚ) ⟨1, 2, 3⟩ ⟨1, 2, 3⟩ :=
+  (frameK_symmetric (⟨⟨3/5, 4/5, 0⟩, ⟨-4/5, 3/5, 0⟩, ⟨0, 0, 1⟩⟩ : M3 ℚ) ⟨⟨2, 1, 1⟩, ⟨1, 3, 2⟩, ⟨1, 2, 4⟩⟩
+    (by decide +kernel)).2 (by decide +kernel) ⟨1, 2, 3⟩
+-- `elastic_polarization` / `elastic_scaling` / `elastic_symmetric_quadratic` / `source_elastic_quadratic`: the same symmetric K
+example : elasticOfDensity (fun t : ℚ => t - 1) 3 (1/2) ⟨⟨2, 1, 1⟩, ⟨1, 3, 2⟩, ⟨1, 2, 4⟩⟩ ([⟨1, 0, 2⟩, ⟨0, 1, 1⟩].map (V3.smul 3))
+    = 3 * 3 * elasticOfDensity (fun t : ℚ => t - 1) 3 (1/2) ⟨⟨2, 1, 1⟩, ⟨1, 3, 2⟩, ⟨1, 2, 4⟩⟩ [⟨1, 0, 2⟩, ⟨0, 1, 1⟩] :=
+  elastic_scaling _ 3 (1/2) _ (by decide +kernel) 3 _
+-- `stress_second_row_only`: two different stress tensors with the same second row
+example : stressEnergyT (K := ℚ) true false ⟨⟨1, 2, 3⟩, ⟨4, 5, 6⟩, ⟨7, 8, 9⟩⟩ [0, 1, 2] [⟨0, 0, 0⟩, ⟨1, 0, 1⟩, ⟨2, 0, 0⟩]
+    = stressEnergyT true false ⟨⟨0, 0, 0⟩, ⟨4, 5, 6⟩, ⟨-1, 0, 0⟩⟩ [0, 1, 2] [⟨0, 0, 0⟩, ⟨1, 0, 1⟩, ⟨2, 0, 0⟩] :=
+  stress_second_row_only true false _ _ rfl _ _
+-- `recompose_decompose` / `solve_not_raises_of_descent`: a 4-point guess with planar interior; a minimiser that descends
+example : recompose (decompose ([⟨0, 1, 0⟩, ⟨1, 0, 5⟩, ⟨2, 0, 6⟩, ⟨3, 1, 0⟩] : List (V3 ℚ))) ⟨0, 1, 0⟩ ⟨3, 1, 0⟩
+    = [⟨0, 1, 0⟩, ⟨1, 0, 5⟩, ⟨2, 0, 6⟩, ⟨3, 1, 0⟩] :=
+  recompose_decompose (⟨0, 1, 0⟩ : V3 ℚ) ⟨3, 1, 0⟩ [⟨1, 0, 5⟩, ⟨2, 0, 6⟩] (by decide +kernel)
+example : exEtot (solveResult [1, 2, 1, 1] (⟨0, 1, 0⟩ :: [⟨1, 0, 5⟩, ⟨2, 0, 6⟩] ++ [⟨3, 1, 0⟩]))
+    ≤ exEtot (⟨0, 1, 0⟩ :: [⟨1, 0, 5⟩, ⟨2, 0, 6⟩] ++ [⟨3, 1, 0⟩]) :=
+  solve_not_raises_of_descent exEtot ⟨0, 1, 0⟩ ⟨3, 1, 0⟩
+    [⟨1, 0, 5⟩, ⟨2, 0, 6⟩] (by decide +kernel) [1, 2, 1, 1] (by decide +kernel)
+-- `dSetter_accepts_planar` / `solve_result_accepted`
+example : dSetter? ([⟨0, 0, 0⟩, ⟨1, 0, 5⟩, ⟨3, 0, 0⟩] : List (V3 ℚ)) = none :=
+  dSetter_accepts_planar _ (by decide) (by decide +kernel)
+example : dSetter? (solveResult [1, 2, 1, 1] ([⟨0, 0, 0⟩, ⟨1, 7, 5⟩, ⟨3, 0, 0⟩] : List (V3 ℚ))) = none :=
+  solve_result_accepted _ _ (by decide +kernel) (by decide +kernel)
+-- `gen_pos_to_a12_eq_model` / `source_conversions_inverse`: an oblique basis in a non-identity box (|A1 x A2| = 4 = rn^2)
+example : Gen.gen_pos_to_a12 (K := ℚ) 2 ⟨⟨2, 0, 0⟩, ⟨1, 2, 0⟩, ⟨0, 0, 3⟩⟩ ⟨1, 0, 0⟩ ⟨0, 1, 0⟩
+      (Gen.gen_a12_to_pos ⟨⟨2, 0, 0⟩, ⟨1, 2, 0⟩, ⟨0, 0, 3⟩⟩ ⟨1, 0, 0⟩ ⟨0, 1, 0⟩ (1/4) (-3)) = some (1/4, -3) :=
+  source_conversions_inverse 2 _ _ _ (by norm_num) (by decide +kernel) (by decide +kernel) _ _
+-- `gamma_reload_conversions`: its hypothesis on the monoclinic record of the reload example
+example : V3.cross (cartOf (⟨1, 0, 0⟩ : V3 ℚ) ⟨⟨3, 0, 0⟩, ⟨0, 4, 0⟩, ⟨-5/4, 0, 5⟩⟩) (cartOf ⟨0, 0, 1⟩ ⟨⟨3, 0, 0⟩, ⟨0, 4, 0⟩, ⟨-5/4, 0, 5⟩⟩)
+    ≠ v3zero := by decide +kernel
+-- `arctan_normalized_end_length`: `atan` is a parameter (here the identity), x = [0, 1, 2], b = (9, 12, 0), pi = 3:
+-- the raw end-to-end vector is (6, 8, 0), of length 10
+example : V3.normSq ((pnArctanDisregistry (fun t : ℚ => t) 3 [0, 1, 2] ⟨9, 12, 0⟩ 0 1 true true 15 10).getLastD v3zero) = 15 * 15 :=
+  arctan_normalized_end_length (fun t : ℚ => t) 3 [0, 1, 2] ⟨9, 12, 0⟩ 0 1 15 10 (by norm_num) _ rfl (by decide +kernel)
+    (by decide +kernel)
+-- `energy_state_only`: two objects with equal settings and different stored profiles
+example : let s : Settings ℚ := ⟨⟨⟨2, 0, 0⟩, ⟨0, 3, 0⟩, ⟨0, 0, 1⟩⟩, ⟨1, 0, 2⟩, ⟨⟨1, 0, 0⟩, ⟨0, 1, 0⟩, ⟨0, 0, 1⟩⟩, ⟨1, 0, 0⟩, [0],
+      ⟨⟨0, 0, 0⟩, ⟨0, 0, 0⟩, ⟨0, 0, 0⟩⟩, 7, 3, false, false, true, false⟩
+    (Obj.mk s [0, 1] [⟨0, 0, 0⟩, ⟨1, 0, 0⟩]).total (fun _ => 0) (fun _ => 0) [0, 2] [⟨0, 0, 0⟩, ⟨3, 0, 0⟩]
+      = (Obj.mk s [5] []).total (fun _ => 0) (fun _ => 0) [0, 2] [⟨0, 0, 0⟩, ⟨3, 0, 0⟩] :=
+  (energy_state_only _ _ _ _ rfl _ _).2
+
+end audit
+
 end Atomman.C18
